@@ -57,11 +57,14 @@ type effAnalysis struct {
 	spawns  map[*ssa.Function][]spawnSite
 	inScope func(*ssa.Function) bool
 	changed bool
+	all     []*ssa.Function                        // every analysed function
+	callers map[*ssa.Function][]ssa.CallInstruction // static call sites, built on demand
 }
 
 type spawnSite struct {
 	In      ssa.Instruction
 	Fn      *ssa.Function // spawned closure/function
+	More    []*ssa.Function // further functions the spawned value may be (several call sites of a helper)
 	Closure *ssa.MakeClosure
 	Group   ssa.Value // the WaitGroup receiver, nil for a bare go statement
 }
@@ -294,6 +297,7 @@ func (a *effAnalysis) run(roots []*ssa.Function) {
 	for _, r := range roots {
 		reach(r)
 	}
+	a.all = order
 	for iter := 0; iter < 50; iter++ {
 		a.changed = false
 		for _, f := range order {
@@ -449,7 +453,15 @@ func (a *effAnalysis) instrEff(f *ssa.Function, in ssa.Instruction, e *effects, 
 			case *ssa.MakeClosure:
 				inst(cv.Fn.(*ssa.Function), cc.Args, p)
 			case *ssa.Parameter, *ssa.FreeVar:
-				// lexically accounted at the creator (see file comment); the root
+				// a func-typed parameter of a function all of whose call sites are seen (a helper
+				// that runs the functions it is given): the functions passed there
+				if fns := a.funcValues(cc.Value, map[ssa.Value]bool{}); len(fns) > 0 {
+					for _, g := range fns {
+						inst(g, cc.Args, p)
+					}
+					return
+				}
+				// otherwise lexically accounted at the creator (see file comment); the root
 				// closures of a fork are checked separately for this case.
 				if e.addR("DYN:"+cv.Name(), p) {
 					a.changed = true
@@ -478,11 +490,37 @@ func (a *effAnalysis) funcValues(v ssa.Value, seen map[ssa.Value]bool) []*ssa.Fu
 	seen[v] = true
 	switch x := v.(type) {
 	case *ssa.MakeClosure:
-		return []*ssa.Function{x.Fn.(*ssa.Function)}
+		return []*ssa.Function{unwrapBound(x.Fn.(*ssa.Function))}
 	case *ssa.Function:
-		return []*ssa.Function{x}
+		return []*ssa.Function{unwrapBound(x)}
 	case *ssa.ChangeType:
 		return a.funcValues(x.X, seen)
+	case *ssa.Parameter:
+		// the values passed at every static call site of the function (none seen: unknown)
+		g := x.Parent()
+		idx := -1
+		for i, p := range g.Params {
+			if p == x {
+				idx = i
+			}
+		}
+		sites := a.callSites(g)
+		if idx < 0 || len(sites) == 0 || a.addressTaken(g) {
+			return nil
+		}
+		var out []*ssa.Function
+		for _, cs := range sites {
+			args := cs.Common().Args
+			if idx >= len(args) {
+				return nil
+			}
+			r := a.funcValues(args[idx], seen)
+			if r == nil {
+				return nil
+			}
+			out = append(out, r...)
+		}
+		return out
 	case *ssa.Phi:
 		var out []*ssa.Function
 		for _, e := range x.Edges {
@@ -599,6 +637,13 @@ func (a *effAnalysis) recordSpawn(f *ssa.Function, in ssa.Instruction, fv ssa.Va
 		}
 	case *ssa.Function:
 		s.Fn = x
+	default:
+		// a function value received from elsewhere (a parameter of a helper that starts what it is
+		// given, a variable): the functions it can hold, when they are all known
+		if fns := a.funcValues(fv, map[ssa.Value]bool{}); len(fns) > 0 {
+			s.Fn = fns[0]
+			s.More = fns[1:]
+		}
 	}
 	a.spawns[f] = append(a.spawns[f], s)
 }
@@ -618,4 +663,68 @@ func sortedLocs(s effSet) []string {
 	}
 	sort.Strings(out)
 	return out
+}
+
+// unwrapBound: a bound-method closure (t.m as a value) runs the method.
+func unwrapBound(f *ssa.Function) *ssa.Function {
+	if f == nil || f.Synthetic == "" || len(f.Blocks) == 0 {
+		return f
+	}
+	var callee *ssa.Function
+	n := 0
+	instrsOf(f, func(in ssa.Instruction) {
+		if c, ok := in.(ssa.CallInstruction); ok {
+			n++
+			callee = c.Common().StaticCallee()
+		}
+	})
+	if n == 1 && callee != nil {
+		return callee
+	}
+	return f
+}
+
+// callSites: the static calls of g (or of the generic function it instantiates) in the analysed functions.
+func (a *effAnalysis) callSites(g *ssa.Function) []ssa.CallInstruction {
+	if a.callers == nil {
+		a.callers = map[*ssa.Function][]ssa.CallInstruction{}
+		for _, f := range a.all {
+			instrsOf(f, func(in ssa.Instruction) {
+				if c, ok := in.(ssa.CallInstruction); ok {
+					if callee := c.Common().StaticCallee(); callee != nil {
+						a.callers[callee] = append(a.callers[callee], c)
+					}
+				}
+			})
+		}
+	}
+	return a.callers[g]
+}
+
+// addressTaken: g is used as a value somewhere (then its static call sites are not all its calls).
+func (a *effAnalysis) addressTaken(g *ssa.Function) bool {
+	taken := false
+	for _, f := range a.all {
+		instrsOf(f, func(in ssa.Instruction) {
+			for _, op := range in.Operands(nil) {
+				if op == nil || *op == nil || *op != ssa.Value(g) {
+					continue
+				}
+				if c, ok := in.(ssa.CallInstruction); ok && c.Common().Value == ssa.Value(g) {
+					// the callee position of a static call
+					isArg := false
+					for _, arg := range c.Common().Args {
+						if arg == ssa.Value(g) {
+							isArg = true
+						}
+					}
+					if !isArg {
+						continue
+					}
+				}
+				taken = true
+			}
+		})
+	}
+	return taken
 }
